@@ -31,6 +31,7 @@ type opGen struct {
 	seen    []mm
 	gen     bool // allow generated ids
 	include bool // allow include-filtered subscriptions
+	pool    bool // strings come from a small pool (writes that differ only in V are frequent)
 }
 
 func (g *opGen) fresh() int32 {
@@ -48,6 +49,9 @@ func (g *opGen) writeOp() wop {
 	o.Val = mm{V: v}
 	if t.Flag(1, 4) {
 		o.Val.S = fmt.Sprintf("s%d", v)
+	}
+	if g.pool {
+		o.Val.S = []string{"", "p", "q"}[t.Choose(3)]
 	}
 	if g.coll {
 		switch t.Choose(6) {
